@@ -39,6 +39,9 @@ type c07Case struct {
 	Desc    string    `json:"desc,omitempty"`
 	Prefix  int       `json:"prefix,omitempty"`
 	Fill    int       `json:"fill,omitempty"`
+	// Declared: a read-error case on a frame whose header DECLARES this body size (decimal) while only the
+	// frame's own body bytes follow (declared > present: the stream cannot be complete)
+	Declared string `json:"declared_body_size,omitempty"`
 }
 
 func init() {
@@ -48,7 +51,7 @@ func init() {
 		Level:  "fault_enumeration",
 		Rule: "E3 fault enumeration: (truncation) every frame of a 40-frame alphabet (4 message kinds × body lengths 0..200) × EVERY cut point k < len(frame) × reader chunkings {whole, 1 byte at a time, and every chunking with ≤1 (thorough ≤2) extra deviations: short read at any byte, data together with io.EOF, one empty read}, the same cuts through 11 standard-library reader types (bytes.Reader, bytes.Buffer, strings.Reader, bufio.Reader of 16/32/64/4096 bytes, io.LimitedReader, io.SectionReader, iotest.OneByteReader, iotest.DataErrReader - code may special-case a reader's dynamic type), and four frames with bodies of 1..3 MiB × cut points within ±1 of m·2^p (p = 9..22, m = 1..3, measured from the frame and from the body start) × {whole, 4 KiB, 64 KiB chunks}: never success, n = k, cause io.EOF for k=0, io.ErrUnexpectedEOF otherwise, either one for k=32; " +
 			"(corrupt header, in a memory-limited worker process) every single-bit flip and every single-byte replacement (01, 80, ff) of the header-size word and of the body-size word of a valid header; header-size field × body-size field alphabets (0, len±1, 2^31, 2^32, 2^40, 2^47, 2^48, 2^62, 2^63-1, 2^63, 2^63+1, 2^64-1 …) × version bytes {ASCII, 0xff, NUL} × {0, 5, all} body bytes present: header size ≠ 32 ⇒ ErrInvalidHeaderSize after exactly 32 bytes; otherwise success iff the declared body is completely present; never a panic, never a dead process; ReadHeader on every prefix 0..40 of arbitrary bytes returns normally; " +
-			"(writer faults) every frame × EVERY byte budget k ≤ len(frame) × {partial write with error, refusal with count 0, full count TOGETHER with the error on the call that ends exactly at the budget (one-shot; later bytes are recorded)}: (corrupt headers also through three readers that are io.Seekers - iohelper.AtToReader and an over-long io.SectionReader, which report more remaining bytes than they can deliver, and bytes.Reader) Marshal returns that error and the count of accepted bytes, which are exactly frame[:count] - also for 18 longer frames (bodies of 4000..70000 bytes and 1 MiB+1) with budgets at both ends and around 512, 4096, 8192, 65536, 2^20 measured from the start, from the body start and from the end; a payload-length sweep (EVERY length 0..600 × 2 kinds × every cut point and every writer budget); (read errors) a non-EOF error injected at every offset, alone or together with the last bytes, under whole and 1-byte chunkings and after every single chunking deviation (short read at any byte, one empty read): no success unless the frame was delivered completely, n = bytes delivered. A case is one (frame, fault point, mode); non-trivial when the fault point is inside the frame (0 < k < len).",
+			"(writer faults) every frame × EVERY byte budget k ≤ len(frame) × {partial write with error, refusal with count 0, full count TOGETHER with the error on the call that ends exactly at the budget (one-shot; later bytes are recorded)}: (corrupt headers also through three readers that are io.Seekers - iohelper.AtToReader and an over-long io.SectionReader, which report more remaining bytes than they can deliver, and bytes.Reader) Marshal returns that error and the count of accepted bytes, which are exactly frame[:count] - also for 18 longer frames (bodies of 4000..70000 bytes and 1 MiB+1) with budgets at both ends and around 512, 4096, 8192, 65536, 2^20 measured from the start, from the body start and from the end; a payload-length sweep (EVERY length 0..600 × 2 kinds × every cut point and every writer budget); (read errors) a non-EOF error injected at every offset, alone or together with the last bytes, under whole and 1-byte chunkings and after every single chunking deviation (short read at any byte, one empty read): no success unless the frame was delivered completely, n = bytes delivered; the same on frames of 1..3 MiB (the incremental read path) at cut points around every power of two, and on streams whose header declares 2^20+1 .. 2^64-1 body bytes while 0, 5 or 70000 follow. A case is one (frame, fault point, mode); non-trivial when the fault point is inside the frame (0 < k < len).",
 		Assumptions: []string{
 			"for a body-size field ≥ 2^63 (no valid frame can have such a body) only 'returns normally and does not succeed' is required; for smaller declared sizes that exceed the stream the truncation clause applies (n = bytes available)",
 			"the worker process runs under `ulimit -v`; a worker that dies is reported for the case it announced before executing it",
@@ -297,6 +300,25 @@ func c07ReadErrEnv(f c06Frame, k int, together bool, uniform int, env *mc.Env) (
 		ok = "SUCCESS"
 	}
 	// recorded, not required: whether the cause is the injected error
+	return fmt.Sprintf("n=%d %s", n, ok), fmt.Sprintf("n=%d error", k)
+}
+
+// c07ReadErrDeclared: a non-EOF read error at offset k of a stream whose header declares `declared` body
+// bytes while only the frame's own body follows. The stream is incomplete whatever k is: an error, n = k.
+func c07ReadErrDeclared(f c06Frame, declared uint64, k int, together bool, uniform int) (got, want string) {
+	defer func() {
+		if e := recover(); e != nil {
+			got += fmt.Sprint(" panic: ", e)
+		}
+	}()
+	wire := append([]byte(nil), c06Wire(f)...)
+	binary.LittleEndian.PutUint64(wire[24:], declared)
+	r := &c07ErrReader{data: wire, failAt: k, together: together, uniform: uniform}
+	n, _, err := pbcmpl.Unmarshal(r, c06Empty(f.Kind))
+	ok := "error"
+	if err == nil {
+		ok = "SUCCESS"
+	}
 	return fmt.Sprintf("n=%d %s", n, ok), fmt.Sprintf("n=%d error", k)
 }
 
@@ -739,6 +761,61 @@ func c07Run(c *mc.Ctx) {
 		c.Count(1, 1)
 		c.Add("large_frame_truncation_cases", 1)
 	})
+	// READ ERRORS on the large frames (the incremental read path above 1 MiB): a non-EOF error at the same
+	// cut points, alone and together with the last bytes, whole and in 4 KiB pieces; and on streams whose
+	// header DECLARES 2^20+1, 2^40, 2^63 or 2^64-1 body bytes while 0, 5 or 70000 follow (the untrusted-size
+	// path whatever is present): never success, n = bytes delivered
+	{
+		type rj struct {
+			f        c06Frame
+			k, uni   int
+			tog      bool
+			declared uint64
+		}
+		var rjs []rj
+		for _, j := range bj {
+			if j.uni == 1<<16 {
+				continue
+			}
+			rjs = append(rjs, rj{j.f, j.cut, j.uni, false, 0}, rj{j.f, j.cut, j.uni, true, 0})
+		}
+		for _, body := range []int{0, 5, 70000} {
+			f := c06Frame{Kind: "legacy", Payload: body}
+			l := len(c06Wire(f))
+			for _, d := range []uint64{1<<20 + 1, 1 << 40, 1 << 63, ^uint64(0)} {
+				for _, k := range []int{32, 33, 36, 37, l - 1, l, 32 + 4096, 32 + 65536} {
+					if k < 32 || k > l {
+						continue
+					}
+					for _, uni := range []int{0, 7} {
+						rjs = append(rjs, rj{f, k, uni, false, d}, rj{f, k, uni, true, d})
+					}
+				}
+			}
+		}
+		c.Expect(int64(len(rjs)))
+		c.Par(len(rjs), func(i int) {
+			j := rjs[i]
+			fc := j.f
+			mode := "alone"
+			if j.tog {
+				mode = "together"
+			}
+			var g, w string
+			cs := c07Case{Frame: &fc, Cut: j.k, Mode: mode, Uniform: j.uni}
+			if j.declared != 0 {
+				g, w = c07ReadErrDeclared(j.f, j.declared, j.k, j.tog, j.uni)
+				cs.Declared = fmt.Sprint(j.declared)
+			} else {
+				g, w = c07ReadErr(j.f, j.k, j.tog, j.uni)
+			}
+			if g != w {
+				c.Fail(13<<48|int64(i), "readerror", "readerror/large", cs, g, w)
+			}
+			c.Count(1, 1)
+			c.Add("large_frame_read_error_cases", 1)
+		})
+	}
 	// writer faults on LONGER frames: a Marshal that buffers (bufio's 4096 bytes, 8192, 64 KiB, 1 MiB)
 	// must still report what the writer accepted. Frames whose total length lies around those sizes ×
 	// budgets at both ends, around every such size and around "length minus such a size" × 3 writer modes.
@@ -908,6 +985,10 @@ func c07Judge(kind string, cs c07Case) (got, want string) {
 	case "writer":
 		return c07WriterFault(*cs.Frame, cs.Budget, cs.Mode)
 	case "readerror":
+		if cs.Declared != "" {
+			d, _ := strconv.ParseUint(cs.Declared, 10, 64)
+			return c07ReadErrDeclared(*cs.Frame, d, cs.Cut, cs.Mode == "together", cs.Uniform)
+		}
 		if len(cs.Choices) > 0 {
 			return c07ReadErrEnv(*cs.Frame, cs.Cut, cs.Mode == "together", 0, mc.NewEnv(cs.Choices))
 		}
